@@ -61,6 +61,7 @@ XML_NASTY = ["", " ", "abc", "2020-13-01", "2020-01-01T24:61:00", "24:61", "1e99
 DOC_NASTY = ["", " ", "abc", "2020-13-01", "24:61", "1e999999", "9" * 5000, 1e308, -1e308, 2 ** 70,
              -2 ** 70, 1.5, True, False, None, [], {}, [[]], {"": None}, "\x00", "\ud800",
              "QUJD=", "zz", "P", 0, -1, [None], {"a": {"a": {"a": {}}}}, "0" * 70000,
+             b"\xff", b"\xc3", b"\xed\xa0\x80", b"",
              "P99999999999Y", "-P999999999999D", "PT99999999999999999999S", "99999-01-01", "0000-01-01",
              "10000-01-01T00:00:00Z", "9999-12-31T23:59:59.9999999Z", "0001-01-01T00:00:00+14:00",
              "9999-12-31T23:59:59-14:00", "24:00:00", "23:59:60", "2020/13/45", "1e400", 2.0, 1e20,
@@ -199,7 +200,8 @@ class Target(object):
                        b"\r\nabc")
                 data = (b"--bnd\r\nContent-Type: text/xml\r\nContent-ID: <root>\r\n\r\n" + data +
                         b"\r\n--bnd\r\n" + att + b"\r\n--bnd--\r\n")
-                ct = 'multipart/related; boundary=bnd; type="text/xml"; start="<root>"'
+                ct = 'multipart/related; boundary=bnd; type="text/xml"; start="<root>"' + \
+                     ("; charset=bogus" if ct_variant % 2 else "")
             res = drive.wsgi_call(self.wsgi, drive.environ("POST", "/", "", data, content_type=ct))
             return self._wsgi_result(res)
         out = drive.server_call(self.app, data)
@@ -304,6 +306,12 @@ def xml_struct_mutants(T, muts):
                 el.set("href", "#x%d" % (b % 3))
                 els[(a + 1 + b % 5) % len(els)].set("id", "x%d" % (b // 3 % 3))
                 kind = "multiref"
+            elif k == 10 and b % 3 == 0:
+                # comments and processing instructions between the children (kept by the parser
+                # when the protocol was built with remove_pis=False)
+                el.insert(b % (len(el) + 1), etree.ProcessingInstruction("pi", "x=1"))
+                el.insert(0, etree.Comment("c"))
+                kind = "pi-and-comment"
             elif k == 10:
                 el.text = None
                 for ch in list(el):
